@@ -12,9 +12,22 @@ Open Scope N_scope.
 
 Definition case := list build.
 Record kout := { o_hashed0 : bool; o_ghok : bool; o_class : N; o_feed : list hev }.
+(* [e], [c]: == and cmp over all ordered pairs of the keys AS BUILT (a static/const-built key that was never
+   asked for its hash is still un-hashed, a from_parts key carries its hash from birth).
+   [xe], [xc]: the same matrices observed [n_extra] more times with operands whose content is the same but whose
+   construction / memo state differs:
+     0  twin_i   vs twin_j      twin = the same name and labels rebuilt the OTHER way (un-hashed
+                                from_static_parts on fresh static storage if the key carries a hash, else
+                                from_parts on owned strings, hashed at birth)
+     1  key_i    vs twin_j
+     2  clone of key_i taken as built  vs  key_j after get_hash() was forced on it
+     3  key_i    vs key_j       both after get_hash() was forced
+   The model's == and cmp read the name and the labels only, so all of these are the same matrix. *)
+Definition n_extra : nat := 4.
 Inductive OUT :=
 | OPanic
-| OOk (ks : list kout) (e : list (list bool)) (c : list (list comparison)) (aux : bool).
+| OOk (ks : list kout) (e : list (list bool)) (c : list (list comparison)) (aux : bool)
+      (xe : list (list (list bool))) (xc : list (list (list comparison))).
 
 (* any function will do for running the memo state machine; the theorems hold for every H *)
 Definition toyH (cs : list bytes) : N :=
@@ -60,7 +73,9 @@ Definition run_case (c : case) : OUT :=
                         o_class := class_of (hash_feed (m_key m)) fs; o_feed := hash_feed (m_key m) |}) ms)
       (map (fun a => map (key_eq a) ks) ks)
       (map (fun a => map (key_cmp a) ks) ks)
-      true.
+      true
+      (repeat (map (fun a => map (key_eq a) ks) ks) n_extra)
+      (repeat (map (fun a => map (key_cmp a) ks) ks) n_extra).
 
 (* ---- equality on outputs *)
 Definition kout_eqb (a b : kout) : bool :=
@@ -75,8 +90,9 @@ Fixpoint list_eqb {A} (f : A -> A -> bool) (a b : list A) : bool :=
 Definition out_eqb (a b : OUT) : bool :=
   match a, b with
   | OPanic, OPanic => true
-  | OOk k1 e1 c1 x1, OOk k2 e2 c2 x2 =>
+  | OOk k1 e1 c1 x1 xe1 xc1, OOk k2 e2 c2 x2 xe2 xc2 =>
       list_eqb kout_eqb k1 k2 && list_eqb (list_eqb eqb) e1 e2 && list_eqb (list_eqb cmp_eqb) c1 c2 && eqb x1 x2
+      && list_eqb (list_eqb (list_eqb eqb)) xe1 xe2 && list_eqb (list_eqb (list_eqb cmp_eqb)) xc1 xc2
   | _, _ => false
   end.
 
@@ -109,7 +125,7 @@ Definition triple_ok e cm (i j k : nat) : bool :=
 Definition spec_ok (c : case) (o : OUT) : bool :=
   match o with
   | OPanic => false
-  | OOk ks e cm aux =>
+  | OOk ks e cm aux xe xc =>
       let keys := map logical_key c in
       let n := length c in
       let idx := seq 0 n in
@@ -119,6 +135,11 @@ Definition spec_ok (c : case) (o : OUT) : bool :=
       && forallb (fun i => o_ghok (nth i ks dkout) && getb e i i && is_eq (getc cm i i)) idx
       && forallb (fun i => forallb (fun j => pair_ok keys ks e cm i j) idx) idx
       && forallb (fun i => forallb (fun j => forallb (fun k => triple_ok e cm i j k) idx) idx) idx
+      (* == and cmp are functions of the content: unchanged by get_hash()/clone on either operand and by
+         replacing operands by differently built twins (so the order clauses above hold for those too) *)
+      && Nat.eqb (length xe) n_extra && Nat.eqb (length xc) n_extra
+      && forallb (fun m => list_eqb (list_eqb eqb) m e) xe
+      && forallb (fun m => list_eqb (list_eqb cmp_eqb) m cm) xc
   end.
 
 Definition known_class (c : case) : option N := None.
